@@ -108,9 +108,8 @@ def decodeDop : (fuel : Nat) → Dop → DecM PVal
     pure (.list xs)
   | fuel+1, .mux bytePos swBytePos swBitPos swDop cases dflt => do
     let s ← getS
-    modifyS fun s' => { s' with origin := s.cursorByte, cursorByte := s.cursorByte + swBytePos, cursorBit := swBitPos.getD 0 }
-    let kv ← decodeDop fuel swDop
-    modifyS fun s' => { s' with cursorBit := 0 }
+    modifyS fun s' => { s' with origin := s.cursorByte }
+    let kv ← decodeParam fuel (.mk "" (some swBytePos) swBitPos (.value swDop none))
     match kv with
     | .atom (.int key) => do
       modifyS fun s' => { s' with cursorByte := s.cursorByte + bytePos }
